@@ -36,7 +36,10 @@ ALIASES = {'LMNN': [('k', 'n_neighbors', 5)], 'RCA_Supervised': [('num_chunks', 
            'ITML_Supervised': [('convergence_threshold', 'tol', 0.125), ('convergence_threshold', 'tol', 0.0),
                                ('num_constraints', 'n_constraints', 9)],
            'MMC_Supervised': [('convergence_threshold', 'tol', 0.125), ('num_constraints', 'n_constraints', 9)],
-           'SDML_Supervised': [('num_constraints', 'n_constraints', 9)], 'LSML_Supervised': [('num_constraints', 'n_constraints', 9)]}
+           'SDML_Supervised': [('num_constraints', 'n_constraints', 9), ('num_constraints', 'n_constraints', None)],
+           'LSML_Supervised': [('num_constraints', 'n_constraints', 9), ('num_constraints', 'n_constraints', None)]}
+ALIASES['ITML_Supervised'].append(('num_constraints', 'n_constraints', None))          # None is a valid value of the replacement
+ALIASES['MMC_Supervised'].append(('num_constraints', 'n_constraints', None))
 ALTERNATIVES = {'init': ['auto', 'pca', 'lda', 'identity', 'random', 'covariance'], 'prior': ['identity', 'covariance', 'random'],
                 'basis': ['triplet_diffs', 'lda'], 'embedding_type': ['weighted', 'orthonormalized', 'plain'],
                 'diagonal': [True, False], 'verbose': [True, False]}
@@ -179,7 +182,11 @@ def run_case(spec):
             evals += 1
             with warnings.catch_warnings(record=True) as w:
                 warnings.simplefilter('always')
-                est = C(**{alias: val})
+                try:
+                    est = C(**{alias: val})
+                except Exception as e:
+                    viol.append(V(name + '.__init__', 'alias_raises', '%s(%s=%r) raised %s: %s' % (name, alias, val, type(e).__name__, str(e)[:100]), [alias]))
+                    continue
             if not any(issubclass(x.category, FutureWarning) for x in w):
                 viol.append(V(name + '.__init__', 'alias_no_warning', '%s(%s=...) did not emit a FutureWarning' % (name, alias), [alias]))
             if est.get_params().get(target) != val or type(est.get_params().get(target)) is not type(val):
@@ -188,7 +195,7 @@ def run_case(spec):
             sigs.add((name, 'alias', alias))
             # the alias must not stay "live": changing the replacement afterwards and cloning must work and carry the new value
             try:
-                other = val * 2 if isinstance(val, int) else 0.5
+                other = val * 2 if isinstance(val, int) else (7 if val is None else 0.5)
                 est.set_params(**{target: other})
                 with warnings.catch_warnings():
                     warnings.simplefilter('ignore')
@@ -390,6 +397,8 @@ def run_case(spec):
     A = ds.X.copy()
     B = ds.X * np.array([1.0, 2.0, 0.5]) + 0.25
     est = zoo.make(name, ds, preprocessor=A).fit(*zoo.train_args(name, ds, 'index'))
+    est.get_mahalanobis_matrix()               # the first model is looked at before the parameters change
+    est.transform(np.arange(3))
     est.set_params(preprocessor=B)
     cl = clone(est)
     est.fit(*zoo.train_args(name, ds, 'index'))
@@ -401,5 +410,9 @@ def run_case(spec):
     if not np.array_equal(est.components_, cl.components_):
         viol.append(V(name + '.clone', 'clone_behaves_differently', 'after set_params(preprocessor=B) on a fitted estimator, the '
                       'estimator and its clone give different models when fitted on the same indices', ['preprocessor', 'fitted']))
+    elif not (np.array_equal(est.get_mahalanobis_matrix(), cl.get_mahalanobis_matrix())
+              and np.array_equal(est.transform(np.arange(4)), cl.transform(np.arange(4)))):
+        viol.append(V(name + '.clone', 'clone_behaves_differently', 'after fit / queries / set_params(preprocessor=B) / fit, the estimator and its '
+                      'clone (same model) return different matrices or embeddings', ['preprocessor', 'fitted', 'queried_between_fits']))
     return dict(evals=evals, sigs=sigs, viol=viol,
                 sample={'estimator': name, 'configurations': [c for c, _ in cfgs], 'unfitted_methods': [m for m, _ in queries(un)]})
